@@ -24,6 +24,10 @@ Monitors (written against the property text, never against the model):
   * family "slow" (virtual clock): a frame much larger than the recv size arrives in fragments spaced by a
     fraction of the time-out, the transfer taking a multiple of it (quiet / busy write side) -> no disconnect,
     all frames delivered once in order; a silent connection (no bytes for longer than the time-out) disconnects
+  * family "resend" (monitor only): the write side across successive connections of one object — send() while
+    DISCONNECTED then connect(); onDisconnected itself calls connect() and send() (EAGAIN / short / full
+    acceptance) -> the bytes socket k accepted are a prefix of the frames of exactly the messages sent while
+    connection k was open (all of them after a full flush), nothing of another connection, no torn frame
   * family "reconnect" (monitor only, no model): ONE TcpConnection object used for two successive connections;
     peer 1 writes k frames + a partial frame and closes (data and EOF in one read pass / data, EAGAIN, EOF in the
     next pass / EOF alone); `onDisconnected` calls `connect()` at once (in progress / immediate / refused);
@@ -251,6 +255,7 @@ class Env(object):
         self.table = Table(self.pk)
         self.connect_ok = [True]
         self.last_sock = [None]
+        self.next_sends = []        # send script preloaded into the next socket created by connect()
 
     def __enter__(self):
         import socket as real_socket
@@ -259,6 +264,7 @@ class Env(object):
 
         def factory():
             s = FakeSocket(self.cov, self.connect_ok[0])
+            s.sends = list(self.next_sends)
             self.last_sock[0] = s
             return s
         self.tc.socket = SockModuleShim(real_socket, factory)
@@ -1274,6 +1280,260 @@ def run_reconnect_family(env, rng, n, cov, out, seen=None):
 
 
 # ------------------------------------------------------------------------------------------------
+# family "resend": the WRITE side across successive connections of one object
+#   (a) send() while DISCONNECTED, then connect(), then sends on the new connection
+#   (b) the onDisconnected callback itself calls connect() and send()
+# monitor = C13 per connection: the bytes socket k accepted are a prefix of the frames of exactly the messages
+# whose send() was called while connection k was the object's open connection (all of them after a full flush)
+# ------------------------------------------------------------------------------------------------
+RESEND_VARIANTS = ["send-while-disconnected", "send-from-callback"]
+RESEND_CAUSES = ["neg", "undec", "eof", "recverr", "timeout"]
+
+
+def gen_resend(env, rng, n):
+    t = env.table
+
+    def msg(big=False):
+        return t.vid(rng.randbytes(rng.randrange(3000, 20000)) if big else gen_value(rng))
+
+    def benign(maxlen=6):
+        return [x for x in gen_send_script(rng, maxlen) if x not in ("e", -1)]
+    for j in range(n):
+        variant = RESEND_VARIANTS[j % 2]
+        cause = RESEND_CAUSES[(j // 2) % len(RESEND_CAUSES)]
+        mode = RECONNECT_MODES[(j // 10) % len(RECONNECT_MODES)]
+        ops = []
+        for _ in range(rng.randrange(0, 3)):
+            ops.append(["send", msg(rng.random() < 0.2), benign()])
+        ops.append(["kill", cause])
+        cb = None
+        if variant == "send-from-callback":
+            sends = []
+            for _ in range(rng.randrange(1, 3)):
+                big = rng.random() < 0.5
+                script = rng.choice([[], [], [rng.randrange(1, 30)], [rng.choice([100, 1000, 2000])], [10 ** 9]])
+                sends.append([msg(big), script])
+            cb = {"mode": mode, "sends": sends}
+        else:
+            for _ in range(rng.randrange(1, 4)):
+                ops.append(["send", msg(rng.random() < 0.3), benign()])      # while DISCONNECTED
+            ops.append(["connect", mode])
+        if mode == "refused":
+            for _ in range(rng.randrange(0, 2)):
+                ops.append(["send", msg(), benign()])                        # still DISCONNECTED
+            ops.append(["connect", rng.choice(["inprogress", "immediate"])])
+        for _ in range(rng.randrange(0, 3)):                                 # while CONNECTING
+            ops.append(["send", msg(rng.random() < 0.3), rng.choice([[], [], ["a"], [rng.randrange(1, 50)]])])
+        ops.append(["wev", []])                                              # connect completes
+        for _ in range(rng.randrange(0, 3)):
+            ops.append(["send", msg(rng.random() < 0.3), benign()])
+            if rng.random() < 0.3:
+                ops.append(["wev", benign()])
+        flush = rng.random() < 0.8
+        if flush:
+            ops.append(["wev", [10 ** 9] * 4])
+        yield {"kind": "resend", "variant": variant, "cause": cause, "mode": mode, "timeout": 1000,
+               "init": rng.choice(["socket", "connect"]), "cb": cb, "ops": ops, "flush": flush}
+
+
+def run_resend(env, sc):
+    tc, t = env.tc, env.table
+    POLL = env.pl.POLL_EVENT_TYPE
+    poller = FakePoller()
+    obs = {"ndisc": 0, "exc": [], "conns": [], "expected_ndisc": 0, "cov": [], "delivered": 0}
+    holder = {"cb_used": False}
+    MODE = {"inprogress": True, "immediate": "immediate", "refused": False}
+
+    def do_send(mid, script, where):
+        conn = holder["c"]
+        sock = env.last_sock[0]
+        live = conn.state != 0              # public API: is there an open (or opening) connection to send on?
+        if sock is not None and not sock.closed:
+            sock.sends = list(script)
+        before = len(sock.wire) if sock is not None else 0
+        try:
+            conn.send(t.vals[mid])
+        except Exception as e:   # noqa
+            obs["exc"].append("send:" + type(e).__name__)
+        if live and obs["conns"]:
+            obs["conns"][-1]["expected"].append(mid)
+        took = (len(sock.wire) if sock is not None else 0) - before
+        if not live:
+            obs["cov"].append("a-send-while-disconnected")
+        elif where == "callback":
+            flen = len(t.frame(mid))
+            obs["cov"].append("callback-send-" + ("eagain" if took == 0 else "partial" if took < flen else "full"))
+
+    def do_connect(mode):
+        env.connect_ok[0] = MODE[mode]
+        env.next_sends[:] = []
+        try:
+            ok = holder["c"].connect("127.0.0.1", 4321)
+        except Exception as e:   # noqa
+            obs["exc"].append("connect:" + type(e).__name__)
+            ok = False
+        if ok:
+            obs["conns"].append({"sock": env.last_sock[0], "expected": [], "how": mode})
+        return ok
+
+    def on_disc():
+        obs["ndisc"] += 1
+        if sc["cb"] and not holder["cb_used"]:
+            holder["cb_used"] = True
+            if do_connect(sc["cb"]["mode"]):
+                if obs["cov"] is not None:
+                    obs["cov"].append("callback-connect-ok")
+            for mid, script in sc["cb"]["sends"]:
+                do_send(mid, script, "callback")
+
+    def on_msg(m):
+        obs["delivered"] += 1
+
+    def fire(mask, recvs, sends):
+        sock = env.last_sock[0]
+        sock.recvs = list(recvs)
+        sock.sends = list(sends)
+        sock.so_next = False
+        try:
+            holder["c"]._TcpConnection__processConnection(sock.fd, mask)
+        except Exception as e:   # noqa
+            if isinstance(e, AssertionError) and "harness bug" in str(e):
+                raise
+            obs["exc"].append("event-loop:" + type(e).__name__)
+
+    env.clock[0] = 0
+    kw = dict(onMessageReceived=on_msg, onDisconnected=on_disc, timeout=sc["timeout"])
+    if sc["init"] == "socket":
+        sock = FakeSocket(env.cov)
+        env.last_sock[0] = sock
+        holder["c"] = tc.TcpConnection(poller, socket=sock, **kw)
+        obs["conns"].append({"sock": sock, "expected": [], "how": "accepted-socket"})
+    else:
+        holder["c"] = tc.TcpConnection(poller, **kw)
+        do_connect("inprogress")
+        fire(POLL.WRITE, [], [])
+    conn = holder["c"]
+    a = t.vid({"type": "x", "n": 1})
+    for op in sc["ops"]:
+        env.clock[0] += 1
+        sock = env.last_sock[0]
+        if op[0] == "send":
+            do_send(op[1], op[2], "app")
+        elif op[0] == "connect":
+            do_connect(op[1])
+        elif op[0] == "wev":
+            if sock is not None and not sock.closed and conn.state != 0:
+                fire(POLL.WRITE, [], op[1])
+        elif op[0] == "kill":
+            if conn.state == 0 or sock is None or sock.closed:
+                continue
+            obs["expected_ndisc"] += 1
+            cause = op[1]
+            if cause == "timeout":
+                env.clock[0] += sc["timeout"] + 1
+                fire(POLL.WRITE, [], [])
+            elif cause == "neg":
+                fire(POLL.READ, [[(struct.pack("<i", -7) + t.payload[a]).hex(), False]], [])
+            elif cause == "undec":
+                fire(POLL.READ, [[(struct.pack("<i", 3) + b"xyz").hex(), False]], [])
+            elif cause == "eof":
+                fire(POLL.READ, [["", False]], [])
+            else:
+                fire(POLL.READ, ["e"], [])
+    obs["state"] = conn.state
+    obs["wbuf"] = len(conn._TcpConnection__writeBuffer)
+    return obs
+
+
+def decode_wire(table, wire):
+    """independent reading of a byte stream: -> (ids of the whole decodable frames, description of what follows)"""
+    ids, pos = [], 0
+    while len(wire) - pos >= 4:
+        l = struct.unpack("<i", wire[pos:pos + 4])[0]
+        if l < 0:
+            return ids, "negative length field at offset %d" % pos
+        if len(wire) - pos - 4 < l:
+            return ids, "partial frame (%d of %d payload bytes)" % (len(wire) - pos - 4, l)
+        ok, vid = table.real_dec(wire[pos + 4:pos + 4 + l])
+        if not ok:
+            return ids, "undecodable frame of length %d at offset %d" % (l, pos)
+        ids.append(vid)
+        pos += 4 + l
+    return ids, ("%d trailing bytes" % (len(wire) - pos)) if pos < len(wire) else "end"
+
+
+def monitor_resend(env, sc, obs):
+    t = env.table
+    v = []
+    for x in obs["exc"]:
+        v.append({"signature": "tcp_connection.resend:exception-escaped:" + x,
+                  "what": "exception escaped (%s) around disconnect / connect / send" % x})
+    for k, cn in enumerate(obs["conns"]):
+        wire = bytes(cn["sock"].wire)
+        F = b"".join(t.frame(i) for i in cn["expected"])
+        if wire != F[:len(wire)]:
+            got, tail = decode_wire(t, wire)
+            stale = [i for i in got if i not in cn["expected"]]
+            kind = "message-of-another-connection" if stale else "torn-or-lost-frame"
+            v.append({"signature": "tcp_connection.resend:wire-not-prefix-of-sent-on-connection:" + kind,
+                      "what": "connection #%d (%s): the peer reads message ids %r then %s; sent on this connection: %r"
+                              % (k, cn["how"], got[:8], tail, cn["expected"][:8])})
+    if obs["conns"] and sc["flush"] and obs["state"] == 2:
+        cn = obs["conns"][-1]
+        F = b"".join(t.frame(i) for i in cn["expected"])
+        if bytes(cn["sock"].wire) != F or obs["wbuf"] != 0:
+            v.append({"signature": "tcp_connection.resend:message-lost-after-flush",
+                      "what": "connection up, socket took everything offered, yet the peer has %d of %d bytes (write buffer %d)"
+                              % (len(cn["sock"].wire), len(F), obs["wbuf"])})
+    if obs["ndisc"] != obs["expected_ndisc"]:
+        v.append({"signature": "tcp_connection.resend:disconnect-count",
+                  "what": "%d connection(s) were lost, onDisconnected fired %d times" % (obs["expected_ndisc"], obs["ndisc"])})
+    return v
+
+
+def public_resend(env, sc):
+    ids = set(op[1] for op in sc["ops"] if op[0] == "send") | set(m for m, _ in (sc["cb"] or {}).get("sends", []))
+    c = json.loads(json.dumps(sc))
+    c["vals"] = {str(i): env.pk.dumps(env.table.vals[i]).hex() for i in sorted(ids)}
+    return c
+
+
+def load_resend(env, pc):
+    remap = {int(k): env.table.vid(env.pk.loads(bytes.fromhex(h))) for k, h in pc.get("vals", {}).items()}
+    c = {k: v for k, v in pc.items() if k != "vals"}
+    c["ops"] = [[op[0], remap.get(op[1], op[1]), op[2]] if op[0] == "send" else op for op in pc["ops"]]
+    if pc.get("cb"):
+        c["cb"] = {"mode": pc["cb"]["mode"], "sends": [[remap.get(m, m), sc] for m, sc in pc["cb"]["sends"]]}
+    return c
+
+
+def run_resend_family(env, rng, n, cov, out, seen=None):
+    cnt = 0
+    for sc in gen_resend(env, rng, n):
+        cnt += 1
+        obs = run_resend(env, sc)
+        for key in ["resend:" + sc["variant"], "resend:cause-" + sc["cause"], "resend:mode-" + sc["mode"]] + \
+                ["resend:" + x for x in set(obs["cov"])]:
+            cov[key] = cov.get(key, 0) + 1
+        if "a-send-while-disconnected" in obs["cov"] and len(obs["conns"]) >= 2 and obs["conns"][-1]["expected"]:
+            cov["resend:send-while-disconnected-then-connect"] = cov.get("resend:send-while-disconnected-then-connect", 0) + 1
+        if seen is not None:
+            seen.add(hashlib.sha1(json.dumps(sc, sort_keys=True).encode()).hexdigest())
+        for x in monitor_resend(env, sc, obs):
+            cov["violations"] = cov.get("violations", 0) + 1
+            if x["signature"] not in [y["signature"] for y in out] and len(out) < 8:
+                x["replay"] = public_resend(env, sc)
+                out.append(x)
+    return cnt
+
+
+RESEND_FLOORS = ["resend:" + x for x in RESEND_VARIANTS] + ["resend:cause-" + x for x in RESEND_CAUSES] + \
+    ["resend:mode-" + x for x in RECONNECT_MODES] + \
+    ["resend:send-while-disconnected-then-connect", "resend:callback-send-partial", "resend:callback-send-eagain",
+     "resend:callback-send-full", "resend:callback-connect-ok"]
+
+
+# ------------------------------------------------------------------------------------------------
 # compare / shrink
 # ------------------------------------------------------------------------------------------------
 def first_diff(model, real):
@@ -1472,6 +1732,10 @@ def run(ctx):
                                     res["violations"], seen)
         res["cases"] += nrec
         kinds["reconnect"] = nrec
+        nres = run_resend_family(env, ctx.rng("tcp_framing/resend"), ctx.scale(300, 6000), cov,
+                                 res["violations"], seen)
+        res["cases"] += nres
+        kinds["resend"] = nres
         res["distinct"] = len(seen)
         cov["kinds"] = kinds
         for c in sample_src:
@@ -1491,7 +1755,7 @@ def run(ctx):
                   "class:undecodable", "class:incomplete", "class:decodes", "ev:send", "ev:poll", "ev:disc", "ev:conn",
                   "payload>8192", "disconnects"] + ["reconnect:" + x for x in RECONNECT_PATTERNS + RECONNECT_MODES] + \
                  ["reconnect:old-data-fully-read", "reconnect:delivered-on-new-connection"] + \
-                 ["timeout:" + x for x in SLOW_KINDS]
+                 ["timeout:" + x for x in SLOW_KINDS] + RESEND_FLOORS
         missing = [f for f in floors if not cov.get(f)]
         if missing:
             res["inconclusive"] = "coverage floor missed: " + ", ".join(missing)
@@ -1516,6 +1780,7 @@ def search(ctx, unproved):
                         x["replay"] = public_case(env, c)
                         out.append(x)
             run_reconnect_family(env, ctx.rng("tcp_framing/search-reconnect/%d" % salt), 240, cov, out)
+            run_resend_family(env, ctx.rng("tcp_framing/search-resend/%d" % salt), 300, cov, out)
             if out:
                 break
     return out
@@ -1525,6 +1790,19 @@ def replay(ctx, violation):
     pc = violation.get("replay")
     if not pc:
         return {"violated": False, "note": "no replay data in the violation record"}
+    if pc.get("kind") == "resend":
+        with Env(ctx.repo, {}) as env:
+            sc = load_resend(env, pc)
+            obs = run_resend(env, sc)
+            viol = monitor_resend(env, sc, obs)
+            return {"violated": bool(viol), "violations": viol,
+                    "implementation": {"connections": [{"how": cn["how"], "sent_on_it": cn["expected"],
+                                                        "peer_reads": decode_wire(env.table, bytes(cn["sock"].wire))}
+                                                       for cn in obs["conns"]],
+                                       "state": STATE_NAMES.get(obs["state"]), "onDisconnected": obs["ndisc"],
+                                       "write_buffer_len": obs["wbuf"], "exceptions": obs["exc"]},
+                    "scenario": {k: sc[k] for k in ("variant", "cause", "mode", "init", "flush")},
+                    "model": "not modelled (sends / connects from inside onDisconnected are outside the model's alphabet): monitor only"}
     if pc.get("kind") == "reconnect":
         with Env(ctx.repo, {}) as env:
             rc = load_reconnect(env, pc)
